@@ -729,6 +729,20 @@ class Interp:
                             s2.cons.opaque.append(('%s:%s' % (i.loc, 'allzero' if holds_allzero else 'not-allzero'), [self.V.show(b_) for b_ in zbits][:12]))
                             if ok: outs.append(Outcome(s2, BV.const(0 if zero_arm else K, wd)))
                         return outs
+                    if isinstance(rv, BV) and rv.w == 1 and is_top(rv.bits[0]) and rv.zero_iff is not None and rv.zero_iff[0] == 'allzero' and depth == 0:
+                        # the analysed function itself returns a boolean decided by a structured condition: two partitions with concrete answers
+                        _, zbits, zneg = rv.zero_iff
+                        outs = []
+                        for truth in (1, 0):
+                            s2 = st.clone(); ok = True
+                            holds_allzero = (truth == 1) == (not zneg)
+                            if holds_allzero:
+                                for b_ in zbits:
+                                    if is_form(b_) or is_const(b_):
+                                        if not s2.cons.add(b_, 0): ok = False
+                            s2.cons.opaque.append(('%s:%s' % (i.loc, 'allzero' if holds_allzero else 'not-allzero'), [self.V.show(b_) for b_ in zbits][:12]))
+                            if ok: outs.append(Outcome(s2, BV.const(truth, 1)))
+                        return outs
                     return [Outcome(st, rv)]
                 if kind == 'abort':
                     self.aborts.append((i.loc, list(st.cons.opaque)[-2:]))
@@ -1176,6 +1190,10 @@ class Interp:
             else: raise Unmodelled('indirect call through %r at %s' % (cv, i.loc))
         bn = base_name(name)
         summ = self.summaries.get(name) or self.summaries.get(bn)
+        if summ is None and name in self.P.defined:
+            # an internal helper that gained or lost the library prefix when it was moved between files
+            alt = bn[len('polyseed_'):] if bn.startswith('polyseed_') else 'polyseed_' + bn
+            summ = self.summaries.get(alt)
         if summ is not None:
             r = summ(self, st, args, i)
             if isinstance(r, list):       # partitions
